@@ -274,7 +274,7 @@ func c05Open(c *eng.Ctx, k *kvAnalysis) {
 			}
 			return v
 		}
-		okChain := eng.Same(via(decrypt.Call.Value), firstResult(newAEAD)) && eng.Same(via(newAEAD.Call.Args[0]), firstResult(readKS)) && kekP != nil && eng.OriginX(readKS.Call.Args[1]) == eng.OriginX(kekP)
+		okChain := eng.SameX(via(decrypt.Call.Value), firstResult(newAEAD)) && eng.SameX(via(newAEAD.Call.Args[0]), firstResult(readKS)) && kekP != nil && eng.OriginX(readKS.Call.Args[1]) == eng.OriginX(kekP)
 		c.Check(okChain, "R-C05-5", f, decrypt.Pos(), "decryption chain in "+f.Name(), "the database is decrypted with the cipher of the DEK that the caller's key-encryption key unwrapped", "")
 		// versions fed to the contexts are the checked wrapped.Version
 		for _, call := range []*ssa.Call{readKS, decrypt} {
